@@ -240,6 +240,10 @@ func (w *World) addrOf(name string) string {
 		return w.acct["orb"].String()
 	case "ORB_UPPER":
 		return strings.ToUpper(w.acct["orb"].String())
+	case "ORB_MIXED":
+		// mixed case is not valid bech32: it does NOT decode to the module address
+		a := w.acct["orb"].String()
+		return a[:10] + strings.ToUpper(a[10:])
 	case "AUTH_UPPER":
 		return strings.ToUpper(w.acct["AUTH"].String())
 	case "AUTH_SPACE":
